@@ -44,9 +44,10 @@ func (e *Engine) treeChecks(id string) []fdResult {
 	split := orc{"SPLIT", "core.JApiCore/bounded/tree-include-split#1", "every directive subtree (any depth) of the accepted corpus documents moved into an INCLUDEd file, two sibling subtrees moved into two files, and the children of a directive moved - in an explicit ( ) context that begins the included file - into an INCLUDEd file (about 3000 splits): same catalog bytes"}
 	parens := orc{"PARENS", "core.JApiCore/bounded/tree-explicit-context#1", "the children of every directive with an implicit context put into an explicit ( ) context (about 540 rewrites): same catalog bytes"}
 	layout := orc{"LAYOUT", "core.JApiCore/bounded/tree-layout#1", "blank lines, '#' comments and '###' block comments in front of every directive line, blanks appended to directive lines, two more columns of indentation (about 10 000 rewrites): same catalog bytes"}
+	splitrej := orc{"SPLITREJ", "core.JApiCore/bounded/tree-include-split-rejected#1", "every top-level directive subtree of the corpus documents that a rule check rejects (4 built-in ones and the err_*.jst documents of /repo/testdata that pass the scanning phase; about 240 splits) moved into an INCLUDEd file: the project is rejected with the same message at the corresponding line of the file that now holds the directive"}
 	switch id {
 	case "C09":
-		list = []orc{split}
+		list = []orc{split, splitrej}
 	case "C11":
 		list = []orc{parens, split}
 	case "C08":
@@ -126,7 +127,7 @@ func (e *Engine) corpusChecks(id, tier string) []fdResult {
 		"C05": {"kit.JApi.ToJson/bounded/corpus-cross-references#1", "the serialised catalog of every accepted corpus document satisfies the statement of C05 literally: key == id == fields, tags <-> interactions exactly once under the right protocol, usedUserTypes/usedUserEnums defined, pathVariables == {parameters}, response codes 100-599 with a body, JSIGHT 0.3"},
 		"C06": {"kit.NewJApiFromFile/bounded/corpus-built-twice#1", "every corpus document (accepted or rejected) built twice in one process gives the same bytes or the same error (message, file, index, line, column, trace); the source bytes are not written"},
 		"C07": {"kit.NewJapi/bounded/corpus-error-locations#1", "every error of the rejected corpus documents names a file, an index not beyond it, the line/column the dependency computes for that index and the text of that line as quote"},
-		"C08": {"kit.NewJApiFromFile/bounded/corpus-blank-and-comment-lines#1", "blank lines, '#' comments and '###' block comments inserted between the top-level blocks of the accepted corpus documents leave the catalog unchanged"},
+		"C08": {"kit.NewJApiFromFile/bounded/corpus-blank-and-comment-lines#1", "blank lines, '#' comments and '###' block comments inserted between the top-level blocks of the accepted corpus documents leave the catalog unchanged; the rejected corpus documents rewritten with CRLF and with CR line ends are rejected with the same message, line and quote (two recorded documents apart: known finding D31)"},
 		"C09": {"kit.NewJapi/bounded/corpus-include-split#1", "moving 1-3 consecutive top-level blocks of an accepted corpus document into an INCLUDEd file gives the same catalog bytes"},
 		"C10": {"kit.NewJApiFromFile/bounded/corpus-paste-expansion#1", "replacing every PASTE of a corpus document by the re-indented body of its MACRO and deleting the MACRO blocks gives the same catalog bytes; undefined and pasted cyclic macros are errors"},
 		"C19": {"kit.NewJApiFromFile/bounded/corpus-banned-kinds#1", "for every accepted corpus document and each of the 31 directive kinds: banning a kind that occurs is rejected with the not-allowed error on an occurrence; banning a kind that does not occur gives the same catalog bytes"},
@@ -144,6 +145,18 @@ func (e *Engine) corpusChecks(id, tier string) []fdResult {
 	out := runKitReplay(e, replayCorpusSrc, "zz_govc_corpus_test.go", "TestGovcCorpusOracle", "corpus oracle "+id+" on the real builder (package kit):")
 	res := []fdResult{{Name: g[0], Props: []string{id}, Goal: "BOUNDED (built-in documents, 400 generated documents and /repo/testdata): " + g[1] + " (bounded sample, not a proof)",
 		OK: strings.Contains(out, "DONE tried=") && !strings.Contains(out, "REPRODUCED input"), Detail: out}}
+	if id == "C08" {
+		// two recorded documents whose error changes with CRLF line ends (known finding D31): an obligation of its own
+		var kn []string
+		for _, l := range strings.Split(out, "\n") {
+			if strings.HasPrefix(l, "CRLFKNOWN ") {
+				kn = append(kn, l)
+			}
+		}
+		res = append(res, fdResult{Name: "kit.NewJApiFromFile/bounded/rejected-documents-crlf#1", Props: []string{id},
+			Goal: "BOUNDED (the rejected corpus documents): with CRLF line ends a rejected document is rejected with the same message at the same line with the same quote (bounded sample, not a proof)",
+			OK:   strings.Contains(out, "DONE tried=") && len(kn) == 0, Detail: strings.Join(kn, "\n") + "\n"})
+	}
 	if id == "C14" {
 		// cycles through the root file are a recorded class (known finding D29): an obligation of its own
 		var rc []string
